@@ -19,9 +19,10 @@
 #include "mkstream.h"
 
 #define C7_SLOTS 4
-typedef struct { OggVorbis_File vf; memsrc ms; int open; } c7_handle;
+typedef struct { OggVorbis_File vf; memsrc ms; int open; long seq[64]; } c7_handle;
 static c7_handle c7h[C7_SLOTS];
 static buf_t c7_phys={0,0,0};
+static long c7_linkoff[65]; static int c7_nlinks=0;   /* byte range of every 'link' appended */
 
 /* reference linear decode: per hs, concatenated per-link float data (channel-major per read chunk is awkward: store interleaved frames) */
 typedef struct { float *data; long frames; int ch; ogg_int64_t start; } c7_reflink;
@@ -68,6 +69,38 @@ static int c7_check(int hs,float **pcm,long r,int bs,ogg_int64_t pos){
   for(j=0;j<r;j++){ int bad=0; for(c=0;c<L->ch;c++) if(memcmp(&L->data[(rel+j)*L->ch+c],&pcm[c][j],4))bad=1;
     if(bad){ if(c7_mis_first<0)c7_mis_first=j; c7_mis_last=j; c7_mis_n++; } }
   return c7_mis_n==0;
+}
+
+/* decode one link's bytes through the packet-level API alone (libogg + vorbis_synthesis*), as examples/decoder_example.c does,
+   and compare with the vorbisfile reference of that link */
+static void c7_refpk(int hs,int li){
+  ogg_sync_state oy; ogg_stream_state os; ogg_page og; ogg_packet op; vorbis_info vi; vorbis_comment vc; vorbis_dsp_state vd; vorbis_block vb;
+  int have_os=0,hdr=0,inited=0,bad=0,r; long frames=0,mism=0; float **pcm; long n=c7_linkoff[li+1]-c7_linkoff[li];
+  c7_reflink *L=(c7_ref[hs]&&li<c7_refn[hs])?&c7_ref[hs][li]:NULL;
+  ogg_sync_init(&oy); vorbis_info_init(&vi); vorbis_comment_init(&vc);
+  { char *b=ogg_sync_buffer(&oy,n); memcpy(b,c7_phys.p+c7_linkoff[li],n); ogg_sync_wrote(&oy,n); }
+  while((r=ogg_sync_pageout(&oy,&og))!=0&&!bad){
+    if(r<0)continue;
+    if(!have_os){ ogg_stream_init(&os,ogg_page_serialno(&og)); have_os=1; }
+    if(ogg_stream_pagein(&os,&og)<0)continue;
+    while(!bad&&(r=ogg_stream_packetout(&os,&op))!=0){
+      if(r<0){ bad=2; break; }
+      if(hdr<3){
+        if(vorbis_synthesis_headerin(&vi,&vc,&op)<0){ bad=1; break; }
+        if(++hdr==3){ if(hs&&vorbis_synthesis_halfrate(&vi,1)){ bad=3; break; } if(vorbis_synthesis_init(&vd,&vi)){ bad=1; break; } vorbis_block_init(&vd,&vb); inited=1; }
+        continue;
+      }
+      if(vorbis_synthesis(&vb,&op)==0) vorbis_synthesis_blockin(&vd,&vb);
+      { int samples; while((samples=vorbis_synthesis_pcmout(&vd,&pcm))>0){ long j; int c;
+          for(j=0;j<samples;j++,frames++){ if(!L||frames>=L->frames||vi.channels!=L->ch){ mism++; continue; }
+            for(c=0;c<vi.channels;c++) if(memcmp(&L->data[frames*L->ch+c],&pcm[c][j],4)){ mism++; break; } }
+          vorbis_synthesis_read(&vd,samples); } }
+    }
+  }
+  printf("refpk hs=%d link=%d frames=%ld ref=%ld ch=%d same=%d bad=%d\n",hs,li,frames,L?L->frames:-1,vi.channels,(L&&mism==0&&frames==L->frames)?1:0,bad);
+  if(inited){ vorbis_block_clear(&vb); vorbis_dsp_clear(&vd); }
+  if(have_os)ogg_stream_clear(&os);
+  vorbis_comment_clear(&vc); vorbis_info_clear(&vi); ogg_sync_clear(&oy);
 }
 
 static void c7_table(void){
@@ -169,12 +202,14 @@ static int c07_main(int argc,char **argv){
     if(!strcmp(op,"case")){
       printf("== case %s\n",n>1?tok[1]:"?"); fflush(stdout);
       for(i=0;i<C7_SLOTS;i++) if(c7h[i].open){ ov_clear(&c7h[i].vf); c7h[i].open=0; }
-      c7_phys.n=0; c7_free_ref(0); c7_free_ref(1);
+      c7_phys.n=0; c7_nlinks=0; c7_free_ref(0); c7_free_ref(1);
     }else if(!strcmp(op,"link")&&n>=9){
       mk_params P; int rc; memset(&P,0,sizeof P);
       P.channels=atoi(tok[1]); P.rate=atol(tok[2]); P.quality=atof(tok[3]); P.n=atol(tok[4]); P.sig=atoi(tok[5]); P.seed=atol(tok[6]); P.pagemode=atoi(tok[7]); P.fill=atoi(tok[8]);
       P.serial=1000+P.seed%100000; P.chunk=3000;
+      if(c7_nlinks<64)c7_linkoff[c7_nlinks]=c7_phys.n;
       rc=mk_encode(&P,&c7_phys);
+      if(c7_nlinks<64){ c7_nlinks++; c7_linkoff[c7_nlinks]=c7_phys.n; }
       printf("link rc=%s bytes=%ld\n",ovname(rc),c7_phys.n);
     }else if(!strcmp(op,"garbage")&&n>=3){
       long k=atol(tok[1]),j; mk_rng_state=(uint32_t)atol(tok[2])|1; for(j=0;j<k;j++){ unsigned char c=mk_rand()&255; buf_add(&c7_phys,&c,1); }
@@ -185,10 +220,12 @@ static int c07_main(int argc,char **argv){
       c7_table(); c7_headers();
     }else if(!strcmp(op,"ref")&&n>=2){
       int hs=atoi(tok[1])?1:0; c7_build_ref(hs); printf("ref hs=%d links=%d\n",hs,c7_refn[hs]);
+    }else if(!strcmp(op,"refpk")&&n>=2){
+      int hs=atoi(tok[1])?1:0,li; if(!c7_nlinks)printf("refpk none\n"); for(li=0;li<c7_nlinks;li++)c7_refpk(hs,li);
     }else if((!strcmp(op,"open")||!strcmp(op,"test"))&&n>=4){
       int s=atoi(tok[1])%C7_SLOTS; c7_handle *H=&c7h[s]; int seekable=atoi(tok[2]); int rc;
       if(H->open){ ov_clear(&H->vf); H->open=0; }
-      ms_init(&H->ms,c7_phys.p,c7_phys.n,seekable); H->ms.chunk=atol(tok[3]);
+      ms_init(&H->ms,c7_phys.p,c7_phys.n,seekable); H->ms.chunk=atol(tok[3]); memset(H->seq,0,sizeof H->seq);
       if(n>=7){ H->ms.fault_at=atol(tok[4]); H->ms.fault_kind=atoi(tok[5]); H->ms.fault_persist=atoi(tok[6]); }
       rc=(op[0]=='o')?ov_open_callbacks(&H->ms,&H->vf,NULL,0,ms_callbacks(seekable)):ov_test_callbacks(&H->ms,&H->vf,NULL,0,ms_callbacks(seekable));
       printf("%s rc=%s closed=%d",op,ovname(rc),H->ms.closed);
@@ -218,12 +255,18 @@ static int c07_main(int argc,char **argv){
       else if(!strcmp(op,"info")){ vorbis_info *vi=ov_info(vf,atoi(tok[2])); vorbis_comment *vc=ov_comment(vf,atoi(tok[2])); if(vi)printf("info ch=%d rate=%ld comments=%d\n",vi->channels,vi->rate,vc?vc->comments:-1); else printf("info null\n"); }
       else if(!strcmp(op,"read")&&n>=3){
         float **pcm; int bs=-7; ogg_int64_t t0=ov_pcm_tell(vf); int hs=ov_halfrate_p(vf)>0; long r=ov_read_float(vf,&pcm,atoi(tok[2]),&bs); ogg_int64_t t1=ov_pcm_tell(vf);
-        int ok=-1; if(r>0)ok=c7_check(hs,pcm,r,bs,t0);
+        int ok=-1;
+        if(r>0){
+          if(vf->seekable) ok=c7_check(hs,pcm,r,bs,t0);
+          else if(bs>=0&&bs<64&&c7_ref[hs]&&bs<c7_refn[hs]){ /* streaming: positions restart per link; compare sequentially */
+            ok=c7_check(hs,pcm,r,bs,c7_ref[hs][bs].start+(H->seq[bs]<<hs)); H->seq[bs]+=r; }
+        }
         printf("read rc=%s link=%d t0=%lld t1=%lld ok=%d",ovname(r),r>0?bs:-1,(long long)t0,(long long)t1,ok);
         if(ok==0)printf(" mis=%ld:%ld:%ld",c7_mis_n,c7_mis_first,c7_mis_last);
         putchar('\n');
       }else if(!strcmp(op,"readi")&&n>=6){
         char *buf=malloc(atoi(tok[2])+16); int bs=-7; ogg_int64_t t0=ov_pcm_tell(vf); long r=ov_read(vf,buf,atoi(tok[2]),atoi(tok[3]),atoi(tok[4]),atoi(tok[5]),&bs);
+        if(r>0&&!vf->seekable&&bs>=0&&bs<64){ vorbis_info *vi=ov_info(vf,-1); if(vi&&atoi(tok[4])>0) H->seq[bs]+=r/(atoi(tok[4])*vi->channels); }
         printf("readi rc=%s link=%d t0=%lld t1=%lld\n",ovname(r),r>0?bs:-1,(long long)t0,(long long)ov_pcm_tell(vf)); free(buf);
       }else if(!strncmp(op,"rawseek",7)||!strncmp(op,"pcmseekpage",11)||!strncmp(op,"pcmseek",7)){
         ogg_int64_t pos=atoll(tok[2]); int lap=(strstr(op,"lap")!=NULL); int rc;
